@@ -187,5 +187,11 @@ def sdSpecRun : SDSpec K V → List (SOp K V) → SDSpec K V × List (Res K V)
     let t := sdSpecRun r.1 ops
     (t.1, r.2 :: t.2)
 
+/-- the StrategyDict state `s` represents the abstract state `g` -/
+structure SDRep (s : SD K V) (g : SDSpec K V) : Prop where
+  rep : Rep s.mkd g.log
+  attr : ∀ k, dget s.attrs (some k) = dget g.attr k
+  dflt : dget s.attrs none = g.default
+
 end SD
 end ALV.C15
